@@ -5,6 +5,17 @@ import glob, json, os, re
 ROOT = os.path.dirname(os.path.dirname(os.path.abspath(__file__)))
 # seeds whose first run was missed by the property's check, and what was added (a stream / oracle, never a fingerprint)
 STRENGTHENED = {
+    "XM_1": "cursor histories that place every multi-token search / match exactly at the end of the list (and one token short of it)",
+    "XN_1": "quote characters as comment payloads, comment templates followed by the dialect's own spellings (==, CURRENT DATE)",
+    "XN_3": "statements with LIMIT + offset (and every other clause kind) in the cross-dialect print base; all 7 dialects in C01's quick tier",
+    "XN_6": "stream 'pre-pass cost': blank / comment / keyword runs next to the words the dialect shims look for, each under a hard time limit",
+    "XO_1": "stream 'long flat inputs': 27 list / chain shapes of 1500 items must end in a tree (iterative dumper, larger model stack)",
+    "XO_2": "a back-quoted table name with two dots in the statement generator's name pool",
+    "XO_3": "the same '#'-bearing texts handed alternately to both shipped parser / lexer classes inside the C12 pool",
+    "XO_5": "STATE requests (interpreter-wide settings) before, between and after the other requests of every C12 run",
+    "XO_6": "failed-scope histories (a rejected statement that registered a WITH / derived table named like a base table, then that base table); the runner now sends rejected statements to the long-lived analyser too",
+    "XP_4": "the payload texts also go through SQLParserMyBatis (model tie + equality with SQLParser on texts without '#'); payload atoms ${x}, ${",
+    "XP_5": "the dialect spellings also go through SQLParserMyBatis (model tie + equality with SQLParser)",
     "C01_1": "stream 'operator trees with explicit grouping': specification expressions printed and re-parsed",
     "C01_2": "the regenerated printer-call census (every printer passes sql_type on) became an obligation of C01",
     "C01_3": "index options (USING / COMMENT / KEY_BLOCK_SIZE) and column attributes in the statement generator",
